@@ -243,6 +243,11 @@ class Gen:
                 if ev is None:
                     continue
                 return ev
+            if c >= 0.975:
+                ev = self.refpair(k, n)
+                if ev is None:
+                    continue
+                return ev
             if n > 0:
                 path = r.choice(["index", "at", "front", "back", "iter", "riter"])
                 i = 0 if path == "front" else n - 1 if path == "back" else r.choice([0, n - 1, r.randrange(n)])
@@ -251,6 +256,35 @@ class Gen:
                 j = r.randrange(n) if wk == "aref" else 0
                 return self.ev("RefWrite", k, path=path, i=i, wk=wk, v=v, j=j)
         return self.ev("FlipAll", k)
+
+    def refpair(self, k, n):
+        """Two element references at once (action RefPair of Bitset.tla): the same bit, two bits of one block, of two
+        blocks, of two objects; every path to a reference, every value category of the two proxies."""
+        r, W = self.r, self.W
+        sf = 1 if r.random() < 0.6 else 0
+        o = k if sf else 1 - k
+        no = self.size[o]
+        if n == 0 or no == 0:
+            return None
+        pk = r.choice(["swap", "swap", "iterswap", "assign", "and", "or", "xor"])
+        if pk in ("swap", "iterswap") and self.view[k] != self.view[o]:
+            pk = r.choice(["assign", "and", "or", "xor"])
+        paths = ["iter", "riter"] if pk == "iterswap" else ["index", "at", "front", "back", "iter", "riter"]
+        p1, p2 = r.choice(paths), r.choice(paths)
+        i = 0 if p1 == "front" else n - 1 if p1 == "back" else r.choice([0, n - 1, r.randrange(n), min(n - 1, W - 1), min(n - 1, W)])
+        t = r.random()
+        if p2 == "front":
+            j = 0
+        elif p2 == "back":
+            j = no - 1
+        elif t < 0.35 and i < no:
+            j = i                                                   # the same position (the same bit when sf = 1)
+        elif t < 0.6:
+            j = min(no - 1, (i // W) * W + r.randrange(W))          # the same block
+        else:
+            j = r.choice([0, no - 1, r.randrange(no)])
+        vc = "tmp" if pk == "iterswap" else r.choice(["tmp", "named", "copy"])
+        return self.ev("RefPair", k, self=sf, p1=p1, i=i, p2=p2, j=j, pk=pk, vc=vc)
 
     def algo(self, k, n, no):
         """A standard algorithm over the bit iterators; positions biased to block boundaries."""
@@ -643,7 +677,9 @@ def finish(ctx, caps, q, rule_extra=""):
              "real objects; TLC simulation walks at 12 and at 20 bits (three blocks); the upstream test file's call sequences; seeded random scripts for "
              "uint8/16/32/64 with boundary sizes/shifts on %d driver builds (one of them with XTL_NO_EXCEPTIONS); std::reverse/rotate/iter_swap/copy/"
              "copy_backward/count/find/equal over the bit iterators are actions of L1; every step also compares end()-begin(), rend()-rbegin(), "
-             "std::count over the iterators, == with exchanged operands and element-wise std::equal. A case is one call with its full observable projection compared by TLC.%s" % (
+             "std::count over the iterators, == with exchanged operands and element-wise std::equal; two element references at once (same bit, same block, "
+             "other block, other object; swap / iter_swap / = / &= / |= / ^=; temporaries, named proxies, copies) are the L1 action RefPair with its own law, "
+             "enumerated at W=8, in the simulation walks and in the random scripts. A case is one call with its full observable projection compared by TLC.%s" % (
                  "" if q else " (unfactored relation)",
                  9 if q else 10, "a sample (25 000; thorough 300 000) stratified over actions and argument classes, a different one for every VERIF_SEED,", 3 if q else 5, rule_extra),
         assumptions=["the harness projection (operator[], iterators, data(), block iterators, count/any/all/none) is read through the public API",
@@ -652,7 +688,7 @@ def finish(ctx, caps, q, rule_extra=""):
                      "capacity() is only required to be >= the reserved size and >= size(); allocator behaviour and copies / comparisons between "
                      "bitsets of different block types are not modelled; in the XTL_NO_EXCEPTIONS build the scripts stay in range (at(i >= size()) "
                      "terminating instead of returning is probed and reported as advisory only)",
-                     "the std-algorithm actions (Algo) have no counterpart in the L2 specs (they are compositions of proxy reads and writes)",
+                     "the std-algorithm actions (Algo) and the two-reference action (RefPair) have no counterpart in the L2 specs (they are compositions of proxy reads and writes)",
                      "aliasing views (two views over the same caller memory, as a view copy or move creates) are not modelled"],
         exhaustive=False)
 
@@ -714,6 +750,17 @@ def run(ctx):
                                  "L1 invariants, laws, observer purity", coverage=not q, timeout=2400)
         if r["violated"]:
             raise MachineryError("L1 spec Bitset.tla violates its own theorem %s (oracle bug), see %s" % (r["violated"], r["outfile"]))
+        if not FAST:
+            # two element references at once (RefPair): its own laws, every (same bit / same block / other block / other object)
+            # x path x value-category combination at W=2, 3 bits (thorough: all paths; quick: representative path pairs)
+            rp = core.tlc_model_check(ctx, "BitsetMC", "Bitset_mc_refpair.cfg" if q else "Bitset_mc_refpair_thorough.cfg",
+                                      "L1 two-reference action RefPair: RefPairLaw", coverage=True, timeout=1800)
+            if rp["violated"]:
+                raise MachineryError("L1 spec Bitset.tla violates its own theorem %s (oracle bug), see %s" % (rp["violated"], rp["outfile"]))
+            cov_rp = {k: v for k, v in rp.get("coverage", {}).items() if k == "RefPair"}
+            ctx.notes["l1_refpair_coverage"] = cov_rp
+            if cov_rp and cov_rp["RefPair"][1] == 0:
+                raise MachineryError("action RefPair has no TLC coverage in Bitset_mc_refpair*.cfg")
         if not q:
             ctx.notes["l1_action_coverage"] = {k: v for k, v in r.get("coverage", {}).items()}
             ctx.notes["vacuous_actions"] = sorted(k for k, v in r.get("coverage", {}).items() if v[1] == 0 and k[0].isupper())
